@@ -73,9 +73,7 @@ mod verif_vlm {
         let tv: [u32; N] = kani::any();
         kani::assume(mutually_inverse(&tl, &tv));
         kani::cover!(true, "assumed region (mutually inverse maps) is reachable");
-        if N >= 2 {
-            kani::cover!(tl[0] != 0, "assumed region contains a non-identity map");
-        }
+        kani::cover!(N < 2 || tl[0] != 0, "assumed region contains a non-identity map (n >= 2)");
         let mut to_level = Vec::with_capacity(N);
         let mut to_var = Vec::with_capacity(N);
         let mut i = 0;
@@ -118,12 +116,13 @@ mod verif_vlm {
         let (m, tl, tv) = any_state::<N>();
         assert!(inv::<N>(&m)); // mutual inverseness implies both are permutations
         assert!(m.len() == N);
-        if N > 0 {
-            let v: VarNo = kani::any();
-            let l: LevelNo = kani::any();
-            // precondition of the accessors: existing variable / level (else: index panic)
-            kani::assume((v as usize) < N && (l as usize) < N);
-            kani::cover!(true, "valid accessor arguments exist");
+        let v: VarNo = kani::any();
+        let l: LevelNo = kani::any();
+        // precondition of the accessors: existing variable / level (else: index panic).
+        // Expressed as a guard (no assume); for n = 0 there is no valid argument.
+        let valid = (v as usize) < N && (l as usize) < N;
+        kani::cover!(N == 0 || valid, "valid accessor arguments exist (n >= 1)");
+        if valid {
             assert!(m.var_to_level(v) == tl[v as usize]);
             assert!(m.level_to_var(l) == tv[l as usize]);
             assert!(m.level_to_var(m.var_to_level(v)) == v);
@@ -146,9 +145,7 @@ mod verif_vlm {
         // precondition: both are existing levels (callers pass level numbers of level views)
         kani::assume((l1 as usize) < N && (l2 as usize) < N);
         kani::cover!(true, "valid swap arguments exist");
-        if N >= 2 {
-            kani::cover!(l1 != l2, "proper swap reachable");
-        }
+        kani::cover!(N < 2 || l1 != l2, "proper swap reachable (n >= 2)");
         kani::cover!(l1 == l2, "degenerate swap reachable");
 
         m.swap_levels(l1, l2);
